@@ -41,7 +41,8 @@ def build_block(jb, bits):
         vals = [conv(ov.get(a, jb["def"])) for a in range(jb["start"], jb["start"] + jb["size"])]
         cls = _failing(ModbusSequentialDataBlock) if jb["fail"] else ModbusSequentialDataBlock
         return cls(jb["start"], vals)
-    vals = {a: conv(ov.get(a, jb["def"])) for a in jb["keys"]}
+    # the dictionary is deliberately built in a scrambled (deterministic) key order: nothing may depend on insertion order
+    vals = {a: conv(ov.get(a, jb["def"])) for a in sorted(jb["keys"], key=lambda k: ((k * 7919 + 13) % 1009, k))}
     cls = _failing(ModbusSparseDataBlock) if jb["fail"] else ModbusSparseDataBlock
     return cls(vals)
 
